@@ -140,7 +140,7 @@ class Gen:
         if k == "str":
             return self.ch(STRS)
         if k == "float":
-            return self.ch([1.5, 0.25, -2.5, 3.0])
+            return self.ch([1.5, 0.25, -2.5, 3.0, 0.0, -0.0])
         if k == "bool":
             return r.random() < 0.5
         if k == "none":
@@ -148,13 +148,15 @@ class Gen:
         if k == "date":
             return {"t": "v", "k": "date", "v": self.ch(["2020-01-02", "1999-12-31"])}
         if k == "datetime":
-            return {"t": "v", "k": "datetime", "v": self.ch(["2020-01-02T03:04:05", "2021-06-07T08:09:10.000123"])}
+            # includes one instant spelled in two time zones (equal values, different text)
+            return {"t": "v", "k": "datetime", "v": self.ch(["2020-01-02T03:04:05", "2021-06-07T08:09:10.000123",
+                                                             "2020-01-02T12:00:00+00:00", "2020-01-02T13:00:00+01:00"])}
         if k == "time":
             return {"t": "v", "k": "time", "v": self.ch(["03:04:05", "23:59:59.5"])}
         if k == "uuid":
             return {"t": "v", "k": "uuid", "v": "12345678-1234-5678-1234-567812345678"}
         if k == "decimal":
-            return {"t": "v", "k": "decimal", "v": self.ch(["1.50", "-0.001"])}
+            return {"t": "v", "k": "decimal", "v": self.ch(["1.50", "1.5", "-0.001"])}
         if k == "list":
             return [self.g_pyval(simple=True) for _ in range(r.randint(0, 3))]
         if k == "dict":
@@ -519,6 +521,8 @@ class Gen:
         elif c == "table":
             x = dict(self.ch(TABLE_POOL))
             x["fresh"] = True
+            if self.p(0.4):
+                x["qc"] = self.ch(self.k["qcls"])  # Table.select/insert/update start statements of that dialect
             if self.p(0.2):
                 x["for"] = {"t": "meth", "x": {"t": "const", "name": "SYSTEM_TIME"}, "m": "as_of", "a": ["2020-01-01"]}
         elif c == "term":
